@@ -143,7 +143,11 @@ func checkCase(t stats.TB, part string, c *evmgen.Case, o *evmgen.Outcome) *repo
 		return stats.Violation(t, part, fp, msg, dump(c, o, extra))
 	}
 	if o.Broken != "" {
-		viol("C02/negative-balance/post-state-unhashable", "the post-state cannot be hashed: "+o.Broken, nil)
+		fp := "C02/negative-balance/post-state-unhashable"
+		if evmgen.BrokenBySuicideSize(o.Broken) {
+			fp = evmgen.FpSuicideSize // crash form of the recorded C12 finding, not a balance
+		}
+		viol(fp, "the post-state cannot be hashed: "+o.Broken, nil)
 		return rp
 	}
 	if res.Err != nil {
